@@ -26,7 +26,7 @@ FLOORS = {"types_checked": 500, "drop_programs": 5}
 
 
 def plan(tier, seed):
-    n = 64 if tier == "quick" else 1500
+    n = 1000 if tier == "quick" else 12000
     return {"n_cases": n, "floors": {"evaluations": n // 2}}
 
 
